@@ -11,6 +11,10 @@ def run(ctx):
     files.update(core.vmon_files())
     files.update(core.dir_files('harness/c10', 'zzverif/c10'))
     files.update(core.dir_files('harness/c10/vars', 'zzverif/c10/vars'))
+    # checked-in copies of the same package under longer import paths (third_party/<import path>, a/<import path>): their
+    # variables and functions have the same names behind a longer prefix
+    files.update(core.dir_files('harness/c10/vars', 'zzverif/c10/third_party/github.com/tencent/goom/zzverif/c10/vars'))
+    files.update(core.dir_files('harness/c10/vars', 'zzverif/c10/a/github.com/tencent/goom/zzverif/c10/vars'))
     modes = [('default', None, None), ('strip-s', '-s', None)]
     if ctx.thorough or True:
         modes += [('strip-w', '-w', None), ('pie', None, 'pie')]
